@@ -1,4 +1,4 @@
-(* C03 driver: (case ID (pool (SYMHEX PREC)...) EXPR) -> "ID RESULT" *)
+(* C03 driver: (case ID (pool (SYMHEX PREC)...) EXPR) -> "ID RESULT";  (top ID (pool ...) EXPR) -> "ID RESULT" of top_amount(EXPR) *)
 let err_name = function
   | EDivZero -> "DivZero" | EDiffComm -> "DiffComm" | ENullAmt -> "NullAmt"
   | EBadOp -> "BadOp" | _ -> "Other"
@@ -34,7 +34,7 @@ let rec expr_of = function
 
 let handle line =
   match parse_sexp line with
-  | L [A "case"; A id; L (A "pool" :: pool); e] ->
+  | L [A kind; A id; L (A "pool" :: pool); e] when kind = "case" || kind = "top" ->
     let tbl = List.map (function L [A s; p] -> (str_of_hex s, zatom p) | _ -> failwith "pool") pool in
     let cp c =
       (* an annotated commodity answers with its base commodity's precision *)
@@ -42,9 +42,12 @@ let handle line =
       let base = (match String.index_opt s '~' with Some i -> String.sub s 0 i | None -> s) in
       (try List.assoc (str_of_string base) tbl with Not_found -> Z0) in
     let ex = expr_of e in
-    let run ord = (match aeval ord cp ex with Ok v -> show_value v | Err e -> "E:" ^ err_name e) in
+    let post v = if kind = "top" then top_amount v else v in
+    let run ord = (match aeval ord cp ex with Ok v -> show_value (post v) | Err e -> "E:" ^ err_name e) in
     let r1 = run false and r2 = run true in
-    (* a result that differs between the two insertion orders depends on hash-table order *)
+    (* the model is evaluated under both insertion orders of the balance table; no result may depend on it (orderings of
+       a balance walk it in commodity order since /repo 55e6d28): a difference is reported and the harness counts it as
+       a disagreement *)
     if r1 = r2 then [id ^ " " ^ r1] else [id ^ " ORDER-DEPENDENT " ^ r1 ^ " | " ^ r2]
   | _ -> failwith "case"
 
